@@ -62,6 +62,10 @@ fn arity_problem(text: &str, n: usize, lens: &[usize]) -> Option<String> {
                 if (len == n) != got.is_some() {
                     return Some(format!("{name} with {len} values for {n} variables returned {}", if got.is_some() { "a value" } else { "an error" }));
                 }
+                // every evaluation entry point binds the n-th value to the n-th name at every occurrence
+                if len == n && name.starts_with("FlatEx::") && got != want {
+                    return Some(format!("{name} returned {got:?}, FlatEx::eval returns {want:?}"));
+                }
             }
             let relaxed: Vec<(&str, Option<Sym>)> = vec![("FlatEx::eval_relaxed", f.eval_relaxed(&vals).ok()), ("DeepEx::eval_relaxed", d.eval_relaxed(&vals).ok())];
             for (name, got) in relaxed {
